@@ -96,6 +96,9 @@ func strip(text []byte) string {
 		}
 		return "changed-unparsable-input"
 	}
+	if sdplines.MarshalErrs(text)&sdplines.MarshalStrippedFailed != 0 && out == string(text) {
+		return "unchanged" // desc.Marshal() failed: the fall-back branch (op stripmf)
+	}
 	var dout sdp.SessionDescription
 	if err := dout.Unmarshal([]byte(out)); err != nil {
 		return "!output-unparsable"
@@ -149,7 +152,7 @@ func parsePhase(text []byte) string {
 			}
 		}
 	}
-	return st + " x" + hex.EncodeToString([]byte(out)) + " x" + rem + " " + b01(stable)
+	return st + " x" + hex.EncodeToString([]byte(out)) + " x" + rem + " " + b01(stable) + " " + strconv.Itoa(sdplines.MarshalErrs(text))
 }
 
 func b01(b bool) string {
@@ -185,7 +188,7 @@ func main() {
 				return "!badcase"
 			}
 			v := sdplines.Structure(text)
-			return v.Tok + " " + b01(v.Stable)
+			return v.Tok + " " + b01(v.Stable) + " " + strconv.Itoa(v.MErrs)
 		case "lines": // the whole output of the function under test, line by line
 			text, err := wire.Payload(a[2])
 			if err != nil {
@@ -202,8 +205,11 @@ func main() {
 				}
 				return "changed-unparsable-input"
 			}
+			if v.FellBack(string(text), out) {
+				return "unchanged" // desc.Marshal() failed: the fall-back branch (marshal_ok = false)
+			}
 			return v.LineIDs(out)
-		case "strip":
+		case "strip", "stripmf":
 			text, err := wire.Payload(a[2])
 			if err != nil {
 				return "!badcase"
